@@ -75,6 +75,14 @@ def _refs(t, acc=None):
     return acc
 
 
+def _has_model_node(t):
+    if not isinstance(t, list) or not t:
+        return False
+    if t[0] in SM.MODEL_NODES or t[0] in ("time", "dt", "starttime", "stoptime"):
+        return t[0] in SM.MODEL_NODES
+    return any(_has_model_node(x) for x in t[1:] if isinstance(x, list))
+
+
 def check_history(case):
     import copy
 
@@ -197,6 +205,32 @@ def check_history(case):
                         runs.append((eqs, df))
                         if op[2]:
                             b.reset_scenario_cache(scenario_manager=sm, scenario="base")
+                    if len(op) > 3 and op[3] is not None and cur["constants"]:
+                        # change a constant through the scenario object WITHOUT a cache reset, run again: whatever is reported,
+                        # each (element, time) must have a single value - a reported arithmetic element equals its expression over
+                        # the reported operands of the same run
+                        cname = cur["constants"][op[3][0] % len(cur["constants"])]["name"]
+                        b.get_scenario(sm, "base").set_property_value(cname, op[3][1])
+                        df2 = b.run_scenarios(scenarios=["base"], scenario_managers=[sm], equations=names, return_format="df")
+                        plain = [a for a in cur["aux"] if not _has_model_node(a["eq"])]
+                        for i in range(len(grid)):
+                            env = {nm: float(df2[nm].iloc[i]) for nm in names}
+                            for a in plain:
+                                try:
+                                    want = E.RefEval(env, time=grid[i], dt=float(cur["dt"]), start=grid[0], stop=grid[-1]).ev(a["eq"])
+                                except E.Fragile:
+                                    continue
+                                if isinstance(want, bool):
+                                    want = float(want)
+                                if a["kind"] == "flow":
+                                    want = max(0, want)
+                                if not E.close(env[a["name"]], want, 1e-9):
+                                    vs.append(Violation("runs:inconsistent-after-scenario-constant-change",
+                                                        "op #%d: after set_property_value(%s, %r) without reset, run reports %s(%r)=%r but its expression %s over the reported operands gives %r"
+                                                        % (opno, cname, op[3][1], a["name"], grid[i], env[a["name"]], SM.show(a["eq"]), want)))
+                                    break
+                            if vs:
+                                break
                     for eqs, df in runs:
                         for nm in eqs:
                             vals = [float(x) for x in df[nm]]
@@ -257,7 +291,8 @@ def history_strategy(max_n=8):
             elif k == "reset":
                 ops.append(["reset"])
             else:
-                ops.append(["runs", draw(st.lists(st.integers(0, 12), min_size=1, max_size=4)), draw(st.booleans())])
+                ops.append(["runs", draw(st.lists(st.integers(0, 12), min_size=1, max_size=4)), draw(st.booleans()),
+                            draw(st.one_of(st.none(), st.tuples(st.integers(0, 3), st.sampled_from([0.5, 3.0, 7.0, 20.0])).map(list)))])
         return {"part": "A", "model": model, "ops": ops}
     return build()
 
